@@ -145,6 +145,7 @@ def check_case(case, ctx):
         below = covered(fp(b) for b in meet if b not in strict and abs(lo_n + (boxes_l[b][1][cn] + 1) * dx - p) <= tol)
         above = covered(fp(b) for b in meet if b not in strict and abs(lo_n + boxes_l[b][0][cn] * dx - p) <= tol)
         must_cover = covered(need_fp) | (below & above)
+
         if (need_fp - got_fp) or (got_fp - exp_fp) or not must_cover <= covered(got_fp):
             missing = list((need_fp - got_fp).elements())[:3] or sorted(must_cover - covered(got_fp))[:3]
             extra = list((got_fp - exp_fp).elements())[:3]
